@@ -1,4 +1,15 @@
 (** C21 — property theorems (statements only; proofs are in Proofs.v) *)
 From Coq Require Import ZArith List.
-From ErgV Require Import Graph.Model Graph.Spec Graph.Proofs.
+From ErgV Require Import Graph.Model Graph.Spec Graph.ProofsReach Graph.Proofs.
 Import ListNotations.
+Open Scope Z_scope.
+
+(** 9. the extracted judge decides inductive reachability *)
+Theorem reachb_spec : forall E a b, reachb E a b = true <-> reach E a b.
+Proof. exact ProofsReach.reachb_spec. Qed.
+
+(** 4. deep_depends_on is reachability (DFS with a visited set is sound and complete), for every
+    iteration order of the dependency sets *)
+Theorem deep_depends_on_reach : forall g a b, index_inv g ->
+  (deep_depends_on g a b = Ok true <-> reach (E (abs g)) a b).
+Proof. exact deep_depends_on_reach_l. Qed.
